@@ -7,6 +7,7 @@ CONSTANTS
   SvcOf <- MCSvcOf3
   Manual <- MCManual
   MaxChanges = 100000000
+  MaxFaults = 100000000
   PoisonTables = FALSE
   Clients = {0, 1, 2, 3}
   Prefixes <- MCPrefixes
